@@ -332,7 +332,7 @@ func runC14(c *Ctx, r *Report, tier string) {
 				if !ok {
 					continue
 				}
-				fn := fieldObj(fa.X.Type(), fa.Field).Name()
+				fn := fieldVarName(fieldObj(fa.X.Type(), fa.Field))
 				for _, r2 := range *fa.Referrers() {
 					st, ok := r2.(*ssa.Store)
 					if !ok {
